@@ -25,7 +25,22 @@ type ReplaySpec struct {
 	What  string   `json:"what"`
 }
 
+// BoundedSpec: a bounded run of the real code standing in for a function outside the generator's
+// reach. Always run; reported as "bounded", never counted among the proved obligations.
+type BoundedSpec struct {
+	ReplaySpec
+	Bound string `json:"bound"`
+}
+
+type boundedResult struct {
+	spec   BoundedSpec
+	out    string
+	failed bool
+	wallS  float64
+}
+
 type PropConfig struct {
+	BoundedRuns []BoundedSpec `json:"bounded_runs"`
 	Replays     []ReplaySpec `json:"replays"`
 	Pkgs        []string     `json:"pkgs"`
 	Lemmas      []string     `json:"lemmas"`
@@ -97,6 +112,16 @@ func cmdCheck(args []string) {
 	}
 	var known []KnownFinding
 	_ = readJSON(filepath.Join(*verif, "known_findings.json"), &known)
+
+	// bounded stand-ins run on the real code while the proofs are generated
+	boundedCh := make(chan boundedResult, len(cfg.BoundedRuns))
+	for _, b := range cfg.BoundedRuns {
+		go func(b BoundedSpec) {
+			t := time.Now()
+			out, failed := runReplay(*verif, *repo, b.ReplaySpec)
+			boundedCh <- boundedResult{b, out, failed, time.Since(t).Seconds()}
+		}(b)
+	}
 
 	eng := NewEngine(*repo)
 	t0 := time.Now()
@@ -272,6 +297,23 @@ func cmdCheck(args []string) {
 			}
 		}
 	}
+	var boundedEv []interface{}
+	for range cfg.BoundedRuns {
+		r := <-boundedCh
+		res := "held on every case within the bound"
+		if r.failed {
+			res = "failed"
+			violations++
+			os.MkdirAll(replayDir, 0o755)
+			file := filepath.Join(replayDir, "bounded."+sanitize(r.spec.Name)+".json")
+			writeJSON(file, map[string]interface{}{"property": *prop, "bounded_run": r.spec, "replayed": true, "failing_input": firstViolationLine(r.out), "observed": truncate(r.out, 8000)})
+			fmt.Printf("VIOLATION property=%s replay=%s bounded-run=%s (real code run: test %s fails: %s)\n", *prop, file, r.spec.Name, r.spec.Test, firstViolationLine(r.out))
+		} else if !strings.Contains(r.out, "ok  \t") {
+			res = "could not run"
+			undecided = append(undecided, "bounded run "+r.spec.Name+" could not run: "+truncate(strings.TrimSpace(r.out), 300))
+		}
+		boundedEv = append(boundedEv, map[string]interface{}{"name": r.spec.Name, "label": "bounded", "bound": r.spec.Bound, "what": r.spec.What, "test": r.spec.Pkg + "." + r.spec.Test, "result": res, "wall_s": r.wallS})
+	}
 	for _, l := range knownLines {
 		fmt.Println(l)
 	}
@@ -301,6 +343,7 @@ func cmdCheck(args []string) {
 			"functions_under_contract":  funcs,
 			"obligation_results":        reports,
 			"not_decided":               cfg.NotDecided,
+			"bounded_stand_ins":         boundedEv,
 			"known_finding_obligations": knownObls,
 			"undecided":                 undecided,
 			"solver_time_ms":            solverMs,
@@ -329,6 +372,15 @@ func cmdCheck(args []string) {
 		}
 		os.Exit(3)
 	}
+}
+
+func firstViolationLine(out string) string {
+	for _, l := range strings.Split(out, "\n") {
+		if i := strings.Index(l, "VIOLATION"); i >= 0 {
+			return truncate(strings.TrimSpace(l[i:]), 400)
+		}
+	}
+	return "test failed"
 }
 
 func matchKnown(known []KnownFinding, prop, obl string) *KnownFinding {
@@ -417,5 +469,6 @@ func runReplay(verif, repo string, rp ReplaySpec) (string, bool) {
 	}
 	cmd := exec.Command(args[0], args[1:]...)
 	out, err := cmd.CombinedOutput()
-	return string(out), err != nil && strings.Contains(string(out), "FAIL")
+	// a test that ran and failed; a build failure of the injected test is not a failing run
+	return string(out), err != nil && strings.Contains(string(out), "--- FAIL")
 }
